@@ -329,6 +329,10 @@ class Ev:
                 if self.class_env(c_) is not None:
                     return self.class_attr(c_, n.id)
                 return self._mk(c_.mod, self_cls=c_, depth=self.depth + 1).ev(v_)
+            # a function of the class body used as a value by a later class-level statement (a dispatch table)
+            c_, m_ = self.repo.find_method(self.self_cls, n.id)
+            if m_ is not None and not m_.decorator_list:
+                return ("method", m_, c_)
         raise Unknown("name %s" % n.id)
 
     def class_env(self, ci):
